@@ -64,6 +64,11 @@ class BoolTerm(Opaque):
         self.vals = list(vals)
 
 
+class ADict(dict):
+    """abstract dict that remembers its (key value, value) pairs in source order, for look-ups with an undecided key"""
+    pairs = ()
+
+
 _CONSTLIKE = re.compile(r"^(None|True|False|[-+]?[0-9.]+(e[-+]?[0-9]+)?|'.*'|\".*\")$")
 
 
@@ -145,15 +150,48 @@ class AtomExec(SymExec):
             for x, y in ((a, b), (b, a)):
                 if y is False and isinstance(x, Opaque):      # x == False  ~  not x
                     return self.negate(x) if opn in ("Eq", "Is") else x
+        if opn in ("In", "NotIn") and isinstance(a, Opaque) and isinstance(b, (list, tuple)) and b and len(b) <= 8 \
+                and all(isinstance(x, (str, int, float, Opaque)) and not isinstance(x, BoolTerm) for x in b):
+            # membership in a literal collection = one of the equalities
+            atoms = [Opaque(eq_atom(self.text(a), self.text(x))) for x in b]
+            m = atoms[0] if len(atoms) == 1 else BoolTerm("or", atoms, " or ".join(x.text for x in atoms))
+            return m if opn == "In" else self.negate(m)
         r = SymExec.compare(self, op, a, b)
         if isinstance(r, Opaque) and not isinstance(r, BoolTerm) and opn in ("Eq", "NotEq", "Is", "IsNot"):
             atom = Opaque(eq_atom(self.text(a), self.text(b), "==" if opn in ("Eq", "NotEq") else "is"))
             return atom if opn in ("Eq", "Is") else self.negate(atom)
         return r
 
+    def e_Dict(self, n, st):
+        d = ADict(SymExec.e_Dict(self, n, st))
+        d.pairs = [(self.ev(k, st), self.ev(v, st)) for k, v in zip(n.keys, n.values) if k is not None]
+        return d
+
+    def lookup(self, d, key, default):
+        """table look-up with a key the table does not decide: a chain of choices `v1 if key == k1 else (v2 if key == k2 else default)`"""
+        out = default
+        for k, v in reversed(list(d.pairs)):
+            cond = Opaque(eq_atom(self.text(key), self.text(k)))
+            out = BoolTerm("ite", [cond, v, out], "(%s if %s else %s)" % (self.text(v), cond.text, self.text(out)))
+        return out
+
+    def e_Subscript(self, n, st):
+        base = self.ev(n.value, st)
+        if isinstance(base, ADict) and base.pairs:
+            key = self.ev(n.slice, st)
+            if isinstance(key, Opaque) and self.text(key) not in base:
+                return self.lookup(base, key, Opaque("<KeyError>"))
+        return SymExec.e_Subscript(self, n, st)
+
     def e_Call(self, n, st):
         if isinstance(n.func, ast.Name) and n.func.id == "bool" and len(n.args) == 1 and not n.keywords:
             return self.ev(n.args[0], st)
+        if isinstance(n.func, ast.Attribute) and n.func.attr == "get" and 1 <= len(n.args) <= 2 and not n.keywords:
+            recv = self.ev(n.func.value, st)
+            if isinstance(recv, ADict) and recv.pairs:
+                key = self.ev(n.args[0], st)
+                if isinstance(key, Opaque) and self.text(key) not in recv:
+                    return self.lookup(recv, key, self.ev(n.args[1], st) if len(n.args) == 2 else None)
         if isinstance(n.func, ast.Name) and isinstance(st.env.get(n.func.id), Opaque) and not n.keywords:
             f = st.env[n.func.id]
             args = [self.ev(a, st) for a in n.args]
@@ -192,6 +230,23 @@ class AtomExec(SymExec):
         a.conds.append((txt, True))
         b.conds.append((txt, False))
         return [(a, True), (b, False)]
+
+    def choices(self, v, st):
+        """-> [(state, value)]: a choice value (conditional expression / table look-up) resolved by forking on its condition"""
+        if isinstance(v, BoolTerm) and v.op == "ite":
+            return [r for s, t in self.split(v.vals[0], st) for r in self.choices(v.vals[1] if t else v.vals[2], s)]
+        return [(st, v)]
+
+    def stmt(self, s, st):
+        if isinstance(s, ast.Assign) and len(s.targets) == 1 and isinstance(s.targets[0], ast.Name):
+            # `x = a if c else b` is the statement `if c: x = a else: x = b`
+            v = self.ev(s.value, st)
+            outs = []
+            for s2, v2 in self.choices(v, st):
+                self.assign(s.targets[0], v2, s2, s)
+                outs.append(s2)
+            return outs
+        return SymExec.stmt(self, s, st)
 
     def branch(self, test, body, orelse, st):
         outs = []
